@@ -5,14 +5,14 @@
 macro_rules! sync_ungraph_node {
     // graph::Node<K, _>
     ( $key:expr ) => {{
-        use gdsl::ungraph::*;
+        use gdsl::sync_ungraph::*;
 
         Node::new($key, ())
     }};
 
     // graph::Node<K, N>
     ( $key:expr, $param:expr ) => {{
-        use gdsl::ungraph::*;
+        use gdsl::sync_ungraph::*;
 
         Node::new($key, $param)
     }};
@@ -22,13 +22,13 @@ macro_rules! sync_ungraph_node {
 #[macro_export]
 macro_rules! sync_ungraph_connect {
     ( $s:expr => $t:expr ) => {{
-        use gdsl::ungraph::*;
+        use gdsl::sync_ungraph::*;
 
         Node::connect($s, $t, ())
     }};
 
     ( $s:expr => $t:expr, $params:expr ) => {{
-        use gdsl::ungraph::*;
+        use gdsl::sync_ungraph::*;
 
         Node::connect($s, $t, $params)
     }};
@@ -41,7 +41,7 @@ macro_rules! sync_ungraph {
 	()
 	=> {
 		{
-			use gdsl::ungraph::Graph;
+			use gdsl::sync_ungraph::Graph;
 
 			Graph::<usize, (), ()>::new()
 		}
@@ -51,7 +51,7 @@ macro_rules! sync_ungraph {
 	( ($K:ty) $(($NODE:expr) => $( [ $( $EDGE:expr),*] )? )* )
 	=> {
 		{
-			use gdsl::ungraph::*;
+			use gdsl::sync_ungraph::*;
 			use gdsl::*;
 
 			let mut edges = Vec::<($K, $K)>::new();
@@ -86,7 +86,7 @@ macro_rules! sync_ungraph {
 	( ($K:ty, $N:ty) $(($NODE:expr, $NPARAM:expr) => $( [$(  $EDGE:expr) ,*] )? )* )
 	=> {
 		{
-			use gdsl::ungraph::*;
+			use gdsl::sync_ungraph::*;
 			use gdsl::*;
 
 			let mut edges = Vec::<($K, $K)>::new();
@@ -121,7 +121,7 @@ macro_rules! sync_ungraph {
 	( ($K:ty) => [$E:ty] $(($NODE:expr) => $( [$( ( $EDGE:expr, $EPARAM:expr) ),*] )? )* )
 	=> {
 		{
-			use gdsl::ungraph::*;
+			use gdsl::sync_ungraph::*;
 			use gdsl::*;
 
 			let mut edges = Vec::<($K, $K, $E)>::new();
@@ -156,7 +156,7 @@ macro_rules! sync_ungraph {
 	( ($K:ty, $N:ty) => [$E:ty] $(($NODE:expr, $NPARAM:expr) => $( [$( ( $EDGE:expr, $EPARAM:expr) ),*] )? )* )
 	=> {
 		{
-			use gdsl::ungraph::*;
+			use gdsl::sync_ungraph::*;
 			use gdsl::*;
 
 			let mut edges = Vec::<($K, $K, $E)>::new();
